@@ -959,6 +959,13 @@ func (s *S3Proxy) GetObjectAttributes(ctx context.Context, input *s3.GetObjectAt
 		input.VersionId = nil
 	}
 
+	if len(input.ObjectAttributes) == 0 {
+		// the frontend selects the attributes to return from the full
+		// set, it does not forward the list the client asked for, and
+		// the sdk refuses a request without attributes
+		input.ObjectAttributes = types.ObjectAttributes("").Values()
+	}
+
 	out, err := s.client.GetObjectAttributes(ctx, input)
 	if err != nil {
 		return s3response.GetObjectAttributesResponse{}, handleError(err)
